@@ -37,6 +37,8 @@ static cl::opt<std::string> Output("o", cl::desc("output json"), cl::Required);
 static cl::list<std::string> Keep("keep", cl::desc("regex on demangled name: keep as call (noinline)"));
 static cl::opt<std::string> Roots("roots", cl::desc("regex on (mangled) name of root functions"), cl::init("^w_"));
 static cl::opt<bool> NoOpt("no-pipeline", cl::desc("do not run the inline pipeline"), cl::init(false));
+static cl::opt<bool> Unroll("unroll", cl::desc("fully unroll loops with constant trip count"), cl::init(false));
+static cl::opt<std::string> EmitLL("emit-ll", cl::desc("write the module after the pipeline as text"), cl::init(""));
 static cl::opt<bool> EarlyCSE("cse", cl::desc("additionally run early-cse (no UB exploitation)"), cl::init(false));
 
 static std::string typeStr(Type *T) {
@@ -323,6 +325,8 @@ int main(int argc, char **argv) {
     }
   }
 
+  if (Unroll)   // clang -O1 marks every loop unroll.disable; drop loop metadata so constant-trip loops can be fully unrolled
+    for (Function &F : *M) for (auto &BB : F) if (auto *T = BB.getTerminator()) T->setMetadata(LLVMContext::MD_loop, nullptr);
   if (!NoOpt) {
     const char *fake[] = {"irdump", "-inline-threshold=100000000"};
     (void)fake;
@@ -332,12 +336,14 @@ int main(int argc, char **argv) {
     PB.registerLoopAnalyses(LAM); PB.crossRegisterProxies(LAM, FAM, CGAM, MAM);
     std::string fnp = EarlyCSE ? "function(sroa,mem2reg,early-cse,simplifycfg)" : "function(sroa,mem2reg,simplifycfg)";
     std::string P = "always-inline," + fnp + ",always-inline," + fnp + ",always-inline," + fnp;
+    if (Unroll) P += ",function(instsimplify,loop-simplify,lcssa,loop(loop-rotate,loop-unroll-full),instsimplify,simplifycfg,sroa,mem2reg,instsimplify,simplifycfg)";
     ModulePassManager MPM;
     if (auto E = PB.parsePassPipeline(MPM, P)) { errs() << "pipeline: " << toString(std::move(E)) << "\n"; return 1; }
     MPM.run(*M, MAM);
   }
   if (verifyModule(*M, &errs())) { errs() << "module broken after pipeline\n"; return 1; }
 
+  if (!EmitLL.empty()) { std::error_code EC2; raw_fd_ostream O2(EmitLL, EC2, sys::fs::OF_None); M->print(O2, nullptr); }
   ModuleSlotTracker MST(M.get());
   Dumper D(M->getDataLayout(), MST);
   json::Array Fns;
